@@ -150,3 +150,31 @@ def _rf_nul(prop, case, f):
     if prop != "C13" or f.get("kind") not in _ROWSET:
         return False
     return "\\x00" in json.dumps(f.get("program"))
+
+
+@pred("categorical-dictionary-differs-across-row-groups")
+def _cat_dict(prop, case, f):
+    # core.read_col sets the categories of the whole output column from each row group's dictionary page: with differing
+    # label sets the codes of earlier row groups are reinterpreted through the last dictionary
+    return (f.get("kind") == "cells" and f.get("col_dtype") == "category" and bool(f.get("label_change"))
+            and not f.get("bad_all_got_missing") and not f.get("bad_all_expected_missing"))
+
+
+@pred("append-to-drill-partitioned-dataset-refused")
+def _drill_append(prop, case, f):
+    return (f.get("kind") == "append_raised" and f.get("exc") == "ValueError" and f.get("where") == "writer.py:write"
+            and f.get("msg", "").startswith("Requested file scheme is drill") and f.get("scheme") == "drill" and bool(f.get("partition_on")))
+
+
+@pred("append-text-to-column-inferred-as-bytes-refused")
+def _bytes_infer(prop, case, f):
+    # object_encoding='infer' on an all-null (or empty) object column stores raw BYTE_ARRAY; a later batch with str values raises
+    return (f.get("kind") == "append_raised" and f.get("exc") == "TypeError" and "pack_byte_array" in (f.get("where") or "")
+            and bool(f.get("allnull_object_cols_initially")))
+
+
+@pred("partition-chunk-with-all-null-keys-raises")
+def _allnull_keys(prop, case, f):
+    # pandas groupby over >= 2 keys raises IndexError when every key of the chunk is null; fastparquet lets it propagate
+    return (f.get("kind") in ("append_raised", "write_raised") and f.get("exc") == "IndexError"
+            and f.get("where") == "writer.py:partition_on_columns" and "non-empty take from an empty axes" in f.get("msg", ""))
